@@ -960,9 +960,7 @@ class C11Check(PCheck):
             if cls == 'interactions':
                 if not detail.get('pairs') or detail.get('n', 0) > len(detail['pairs']):
                     return False
-                mol = base_topology['molecules'][detail['molecule']]
-                resids = [a[0] for a in mol['atoms']]
-                terminal = (min(resids), max(resids))
+                terminal = C11Check.terminal_residues(base_topology['molecules'][detail['molecule']])
                 for x, y in detail['pairs']:
                     if x[:3] != y[:3] or len(x[3]) != len(y[3]):
                         return False
@@ -978,15 +976,29 @@ class C11Check(PCheck):
                 if detail['n'] > len(detail['bad']):
                     return False
                 for item in detail['bad']:
-                    mol = base_topology['molecules'][item['molecule']]
-                    resids = [a[0] for a in mol['atoms']]
-                    if item['resid'] not in (min(resids), max(resids)):
+                    if item['resid'] not in C11Check.terminal_residues(base_topology['molecules'][item['molecule']]):
                         return False
                     if max(abs(p - q) for p, q in zip(item['expected'], item['actual'])) > 1.5:
                         return False
             else:
                 return False
         return True
+
+    @staticmethod
+    def terminal_residues(mol):
+        """Residue numbers at the ends of the chains of a molecule: residues with fewer than two backbone neighbours
+        (a merged molecule holds several chains, so this is more than the first and last residue)."""
+        resids = sorted(set(a[0] for a in mol['atoms']))
+        neighbours = {r: set() for r in resids}
+        for section, _guard, atoms, _params in mol['inter']:
+            if section in ('bonds', 'constraints') and len(atoms) == 2 and all(isinstance(k, list) for k in atoms):
+                (r1, n1), (r2, n2) = atoms
+                if n1 == 'BB' and n2 == 'BB' and r1 != r2 and r1 in neighbours and r2 in neighbours:
+                    neighbours[r1].add(r2)
+                    neighbours[r2].add(r1)
+        out = set(r for r, nb in neighbours.items() if len(nb) < 2)
+        out.update((min(resids), max(resids)) if resids else ())
+        return out
 
     def execute(self, scenario):
         task = scenario['task']
